@@ -226,6 +226,7 @@ func C16(p *engine.Prog, r *engine.Report) {
 	r.Floor("C16-R3", 5, "producer, consumer, 2 recipient readers, shard agreement")
 	c16R4(p, r)
 	c16R5(p, r)
+	c16R6(p, r)
 }
 
 // varNameOf: the source variable name behind a value when it is a load of a named local /
@@ -511,4 +512,110 @@ func c16R5(p *engine.Prog, r *engine.Report) {
 	resetCompletenessRule(p, r, "C16-R5", "core/flip", "Flipper", "Clear", map[string]string{},
 		"flips, readiness marks or the node's own flip encryption keys of the finished epoch are used in the next one: authors encrypt with, and solvers are served from, last epoch's material")
 	r.Floor("C16-R5", 5, "3 KeysPool containers + Flipper fields")
+}
+
+// c16R6: (a) in getCandidatesAndFlips flips are attributed to "the candidate appended next"
+// (author index = len(shard.candidates)): every attribution is followed, on every path, by the
+// append of that identity to shard.candidates; (b) GetEncryptedPrivateFlipKey answers from the
+// cache and from the freshly decrypted package by the same index test.
+func c16R6(p *engine.Prog, r *engine.Report) {
+	if f := mustFunc(p, r, "core/ceremony", "ValidationCeremony.getCandidatesAndFlips"); f != nil {
+		n := 0
+		for _, cl := range f.AnonFuncs {
+			// the closure that appends to shard.candidates
+			stores := map[*ssa.BasicBlock]bool{}
+			for _, b := range cl.Blocks {
+				for _, ins := range b.Instrs {
+					if st, ok := ins.(*ssa.Store); ok {
+						if _, fld, okF := engine.FieldOf(st.Addr); okF && fld == "candidates" {
+							stores[b] = true
+						}
+					}
+				}
+			}
+			if len(stores) == 0 {
+				continue
+			}
+			for _, c := range engine.Calls(cl) {
+				// a call of a sibling closure that fills flipsPerAuthor (addFlips): dynamic call of a captured func value
+				cc := c.Common()
+				if cc.StaticCallee() != nil || cc.IsInvoke() {
+					continue
+				}
+				if _, isB := cc.Value.(*ssa.Builtin); isB {
+					continue
+				}
+				// it receives flip cids ([][]byte)
+				takesCids := false
+				for _, a := range cc.Args {
+					if a.Type().String() == "[][]byte" {
+						takesCids = true
+					}
+				}
+				if !takesCids {
+					continue
+				}
+				n++
+				ok := stores[c.Block()]
+				if !ok {
+					ok = true
+					for b := range engine.ReachAvoiding(cl, c.Block(), nil, stores) {
+						if b == c.Block() {
+							continue
+						}
+						if len(b.Instrs) > 0 {
+							if _, isRet := b.Instrs[len(b.Instrs)-1].(*ssa.Return); isRet {
+								ok = false
+							}
+						}
+					}
+					// the call's own block must not return either
+					if _, isRet := c.Block().Instrs[len(c.Block().Instrs)-1].(*ssa.Return); isRet {
+						ok = false
+					}
+				}
+				r.Check(ok, "C16-R6", "getCandidatesAndFlips|flips are attributed only to an identity that is appended to the candidates next", p.InstrPos(c), "append to shard.candidates follows on every path", "flips are attributed under author index len(shard.candidates) for an identity that is not (always) appended: they land on the next candidate of the shard — solvers are assigned flips whose real author has no recipient list and publishes no key package")
+			}
+		}
+		if n == 0 {
+			r.Und("C16-R6", "getCandidatesAndFlips|flip attribution", p.Pos(f.Pos()), "no attribution call found in the candidate closure")
+		}
+	}
+	if f := mustFunc(p, r, "core/mempool", "KeysPool.GetEncryptedPrivateFlipKey"); f != nil {
+		sigs := map[string]string{}
+		for _, i := range engine.Ifs(f) {
+			cond, neg := stripNot(i.Cond)
+			bo, ok := cond.(*ssa.BinOp)
+			if !ok {
+				continue
+			}
+			s := renderVal(bo, 0)
+			if !strings.Contains(s, ".Pairs") {
+				continue
+			}
+			// forget which array the test is about
+			for {
+				k := strings.Index(s, ".Pairs")
+				if k < 0 {
+					break
+				}
+				st := k
+				for st > 0 && !strings.ContainsAny(string(s[st-1]), "( ") {
+					st--
+				}
+				s = s[:st] + "PAIRS" + s[k+len(".Pairs"):]
+			}
+			if neg {
+				s = "!" + s
+			}
+			sigs[s] = p.InstrPos(i)
+		}
+		var keys []string
+		for k := range sigs {
+			keys = append(keys, k)
+		}
+		sort.Strings(keys)
+		r.Check(len(keys) == 1, "C16-R6", "GetEncryptedPrivateFlipKey|cached and first-lookup answers use the same index test", p.Pos(f.Pos()), strings.Join(keys, " | "), "the index tests of the two branches differ ("+strings.Join(keys, " | ")+"): a recipient gets its key on the first lookup and nil on the next (or the reverse) although the package holds its entry")
+	}
+	r.Floor("C16-R6", 2, "attribution + index tests")
 }
